@@ -36,10 +36,77 @@ theorem block_of_touch (c : Cfg) (r : Req) (x : Nat) (hf : fits c r) (ht : touch
   · rw [Nat.mul_comm]; omega
   · rw [Nat.add_mul, Nat.one_mul, Nat.mul_comm]; omega
 
+/-- the bank address converter keeps interleave blocks together: its interleaving size and its offset are multiples
+of the interleave block (MI300A: 128-byte interleaving, offset 0, 64-byte blocks); trivially true without converter -/
+def ConvOk (c : Cfg) : Prop := match c.bconv with
+  | none => True
+  | some v => 2 ^ c.ilv ∣ v.isz ∧ 2 ^ c.ilv ∣ v.off
+
+instance (c : Cfg) : Decidable (ConvOk c) := by
+  unfold ConvOk; cases c.bconv <;> infer_instance
+
+/-- what the converter does to block numbers (`q` = external address / block size) -/
+def convBlock (m n idx o q : Nat) : Nat :=
+  if q < o then q
+  else if m * n = 0 then q
+  else if (q - o) / m % n ≠ idx then q
+  else (q - o) / (m * n) * m + q % m
+
+theorem conv_block (B : Nat) (hB : 0 < B) (m n idx o a : Nat) :
+    ((Conv.conv? ⟨B * m, n, idx, B * o⟩ a).getD a) / B = convBlock m n idx o (a / B) := by
+  have hlt : a < B * o ↔ a / B < o := by rw [Nat.div_lt_iff_lt_mul hB, Nat.mul_comm]
+  have hz : B * m * n = 0 ↔ m * n = 0 := by
+    rw [Nat.mul_assoc, Nat.mul_eq_zero]; constructor
+    · intro h; rcases h with h | h
+      · omega
+      · exact h
+    · intro h; exact Or.inr h
+  have hX : (a - B * o) / B = a / B - o := Nat.sub_mul_div a B o
+  have hcond : (a - B * o) % (B * m * n) / (B * m) = (a / B - o) / m % n := by
+    rw [Nat.mod_mul_right_div_self, ← Nat.div_div_eq_div_mul, hX]
+  unfold Conv.conv? convBlock
+  simp only
+  by_cases h1 : a < B * o
+  · rw [if_pos h1, if_pos (hlt.1 h1)]; rfl
+  · rw [if_neg h1, if_neg (fun h => h1 (hlt.2 h))]
+    by_cases h2 : B * m * n = 0
+    · rw [if_pos h2, if_pos (hz.1 h2)]; rfl
+    · rw [if_neg h2, if_neg (fun h => h2 (hz.2 h))]
+      rw [hcond]
+      by_cases h3 : (a / B - o) / m % n ≠ idx
+      · rw [if_pos h3, if_pos h3]; rfl
+      · rw [if_neg h3, if_neg h3]
+        simp only [Option.getD_some]
+        have e1 : (a - B * o) / (B * m * n) = (a / B - o) / (m * n) := by
+          rw [Nat.mul_assoc, ← Nat.div_div_eq_div_mul, hX]
+        have e2 : a % (B * m) = a % B + B * (a / B % m) := Nat.mod_mul
+        rw [e1, e2]
+        have e3 : (a / B - o) / (m * n) * (B * m) + (a % B + B * (a / B % m))
+            = B * ((a / B - o) / (m * n) * m + a / B % m) + a % B := by
+          rw [Nat.mul_add, ← Nat.mul_assoc B, Nat.mul_comm B ((a / B - o) / (m * n)), Nat.mul_assoc]
+          omega
+        rw [e3, Nat.mul_add_div hB, Nat.div_eq_of_lt (Nat.mod_lt _ hB), Nat.add_zero]
+
+/-- addresses of one interleave block are sent to one block by the converter -/
+theorem bankAddr_block (c : Cfg) (hc : ConvOk c) (a b : Nat) (h : a / 2 ^ c.ilv = b / 2 ^ c.ilv) :
+    bankAddr c a / 2 ^ c.ilv = bankAddr c b / 2 ^ c.ilv := by
+  unfold bankAddr
+  unfold ConvOk at hc
+  cases hv : c.bconv with
+  | none => exact h
+  | some v =>
+    rw [hv] at hc
+    obtain ⟨⟨m, hm⟩, ⟨o, ho⟩⟩ := hc
+    have hB : 0 < 2 ^ c.ilv := Nat.pow_pos (by decide)
+    have ev : v = ⟨2 ^ c.ilv * m, v.n, v.idx, 2 ^ c.ilv * o⟩ := by
+      cases v; simp only [Conv.mk.injEq] at *; simp [hm, ho]
+    simp only
+    rw [ev, conv_block _ hB, conv_block _ hB, h]
+
 /-- all requests touching a byte are served by one bank -/
-theorem bank_of_touch (c : Cfg) (r : Req) (x : Nat) (hf : fits c r) (ht : touches x r = true) :
+theorem bank_of_touch (c : Cfg) (hc : ConvOk c) (r : Req) (x : Nat) (hf : fits c r) (ht : touches x r = true) :
     bankOf c r.addr = bankOf c x := by
-  unfold bankOf; rw [block_of_touch c r x hf ht]
+  unfold bankOf; rw [bankAddr_block c hc _ _ (block_of_touch c r x hf ht).symm]
 
 theorem split_unique {α : Type} (r : α) : ∀ (a a' b b' : List α), a ++ r :: b = a' ++ r :: b' → r ∉ a → r ∉ a' → a = a' := by
   intro a
@@ -62,19 +129,24 @@ theorem not_mem_of_nodup_split {α : Type} (r : α) (a b : List α) (h : (a ++ r
   rw [List.nodup_append] at h
   exact h.2.2 r hm r (by simp) rfl
 
-theorem arrived_nodup (c : Cfg) (s : State) (h : Inv c s) : s.arrived.Nodup := by
-  have : (s.arrived.map (·.id)).Nodup := by rw [h.ids]; exact List.nodup_range
+theorem nodup_of_ids (A : List Req) (hids : A.map (·.id) = List.range A.length) : A.Nodup := by
+  have : (A.map (·.id)).Nodup := by rw [hids]; exact List.nodup_range
   exact List.Pairwise.of_map (·.id) (fun a b hab he => hab (by rw [he])) this
 
-/-- position of a request in the arrival list is its id -/
-theorem arrived_split (c : Cfg) (s : State) (h : Inv c s) (r : Req) (hr : r ∈ s.arrived) :
-    s.arrived = s.arrived.take r.id ++ r :: s.arrived.drop (r.id + 1) := by
+theorem arrived_nodup (c : Cfg) (s : State) (h : Inv c s) : s.arrived.Nodup := nodup_of_ids _ h.ids
+
+theorem split_of_ids (A : List Req) (hids : A.map (·.id) = List.range A.length) (r : Req) (hr : r ∈ A) :
+    A = A.take r.id ++ r :: A.drop (r.id + 1) := by
   obtain ⟨j, hj, hjr⟩ := List.getElem_of_mem hr
-  have hid : (s.arrived.map (·.id))[j]'(by simpa using hj) = j := by
-    simp only [h.ids]; simp
+  have hid : (A.map (·.id))[j]'(by simpa using hj) = j := by
+    simp only [hids]; simp
   have : r.id = j := by rw [← hjr]; simpa using hid
   rw [this, ← hjr]
   simp
+
+/-- position of a request in the arrival list is its id -/
+theorem arrived_split (c : Cfg) (s : State) (h : Inv c s) (r : Req) (hr : r ∈ s.arrived) :
+    s.arrived = s.arrived.take r.id ++ r :: s.arrived.drop (r.id + 1) := split_of_ids _ h.ids r hr
 
 /-- every committed request is an arrived one -/
 theorem log_sub_arrived (c : Cfg) (s : State) (h : Inv c s) : ∀ r ∈ s.log, r ∈ s.arrived := by
@@ -84,9 +156,64 @@ theorem log_sub_arrived (c : Cfg) (s : State) (h : Inv c s) : ∀ r ∈ s.log, r
     rw [← hi]; simp [hr, inB]
   exact (List.mem_filter.1 this).1
 
+/-- **Key lemma (pure list form).** `A` = arrivals (ids = positions), `L` = a commit log (newest first) whose bank-`k` part
+is, in order, the bank-`k` arrivals before `r`. On every byte `x` all of whose accessors are routed to bank `k`, `L` reads
+like the flat memory obtained from the requests that arrived before `r`. -/
+theorem flat_of_prefix (c : Cfg) (A L : List Req) (k : Nat) (r : Req) (rest : List Req)
+    (hids : A.map (·.id) = List.range A.length)
+    (hi : (L.filter (inB c k)).reverse ++ r :: rest = A.filter (inB c k))
+    (hsub : ∀ r' ∈ L, r' ∈ A) (x : Nat) (hq : ∀ r' ∈ A, touches x r' = true → inB c k r' = true) :
+    readByte L x = readByte (A.take r.id).reverse x := by
+  have hrm : r ∈ A.filter (inB c k) := by rw [← hi]; simp
+  have hra := (List.mem_filter.1 hrm).1
+  have hrq : inB c k r = true := (List.mem_filter.1 hrm).2
+  have hnd := nodup_of_ids A hids
+  have hsplit := split_of_ids A hids r hra
+  have hf2 : A.filter (inB c k) =
+      (A.take r.id).filter (inB c k) ++ r :: (A.drop (r.id + 1)).filter (inB c k) := by
+    conv => lhs; rw [hsplit]
+    simp [List.filter_append, List.filter_cons, hrq]
+  have hndf : (A.filter (inB c k)).Nodup := hnd.filter _
+  have hpre : (L.filter (inB c k)).reverse = (A.take r.id).filter (inB c k) := by
+    apply split_unique r _ _ rest ((A.drop (r.id + 1)).filter (inB c k))
+    · rw [hi, hf2]
+    · exact not_mem_of_nodup_split r _ rest (by rw [hi]; exact hndf)
+    · exact not_mem_of_nodup_split r _ _ (by rw [← hf2]; exact hndf)
+  have e1 : L.filter (touches x) = (L.filter (inB c k)).filter (touches x) := by
+    rw [List.filter_filter]
+    apply List.filter_congr
+    intro r' hr'
+    by_cases ht' : touches x r' = true
+    · simp [ht', hq r' (hsub r' hr') ht']
+    · simp [ht']
+  have e2 : (A.take r.id).reverse.filter (touches x)
+      = (((A.take r.id).filter (inB c k)).reverse).filter (touches x) := by
+    rw [← List.filter_reverse, List.filter_filter]
+    apply List.filter_congr
+    intro r' hr'
+    have hr'' : r' ∈ A := List.mem_of_mem_take (List.mem_reverse.1 hr')
+    by_cases ht' : touches x r' = true
+    · simp [ht', hq r' hr'' ht']
+    · simp [ht']
+  rw [← readByte_filter x L, ← readByte_filter x (A.take r.id).reverse, e1, e2, ← hpre]
+  simp
+
+/-- **Per-byte routing form.** In a state satisfying the invariant, the request `r` that is next to commit in bank `k`
+finds on every byte `x` whose accessors are all routed to bank `k` exactly the flat memory obtained from the requests that
+arrived before it — no assumption that requests stay inside one interleave block. -/
+theorem head_sees_flat_routed (c : Cfg) (s : State) (h : Inv c s)
+    (k : Nat) (r : Req) (rest : List Req) (hh : unc (chain c s k) = r :: rest) (x : Nat)
+    (hq : ∀ r' ∈ s.arrived, touches x r' = true → bankOf c r'.addr = k) :
+    readByte s.log x = readByte (s.arrived.take r.id).reverse x := by
+  have hi := h.i k
+  unfold I at hi
+  rw [hh] at hi
+  exact flat_of_prefix c s.arrived s.log k r rest h.ids hi (log_sub_arrived c s h) x
+    (fun r' hr' ht' => by simp [inB, hq r' hr' ht'])
+
 /-- **Key lemma.** In a state satisfying the invariant, the request `r` that is next to commit in its bank sees,
 on every byte of its footprint, exactly the flat memory obtained from the requests that arrived before it. -/
-theorem head_sees_flat (c : Cfg) (s : State) (h : Inv c s) (hfit : ∀ r ∈ s.arrived, fits c r)
+theorem head_sees_flat (c : Cfg) (hc : ConvOk c) (s : State) (h : Inv c s) (hfit : ∀ r ∈ s.arrived, fits c r)
     (k : Nat) (r : Req) (rest : List Req) (hh : unc (chain c s k) = r :: rest) (x : Nat) (ht : touches x r = true) :
     readByte s.log x = readByte (s.arrived.take r.id).reverse x := by
   have hi := h.i k
@@ -96,43 +223,10 @@ theorem head_sees_flat (c : Cfg) (s : State) (h : Inv c s) (hfit : ∀ r ∈ s.a
   have hra := (List.mem_filter.1 hrm).1
   have hrq : inB c k r = true := (List.mem_filter.1 hrm).2
   have hk : bankOf c x = k := by
-    rw [← bank_of_touch c r x (hfit r hra) ht]; simpa [inB] using hrq
-  have hnd := arrived_nodup c s h
-  have hsplit := arrived_split c s h r hra
-  -- the two decompositions of `arrived.filter (inB k)` around `r`
-  have hf2 : s.arrived.filter (inB c k) =
-      (s.arrived.take r.id).filter (inB c k) ++ r :: (s.arrived.drop (r.id + 1)).filter (inB c k) := by
-    conv => lhs; rw [hsplit]
-    simp [List.filter_append, List.filter_cons, hrq]
-  have hndf : (s.arrived.filter (inB c k)).Nodup := hnd.filter _
-  have hpre : (s.log.filter (inB c k)).reverse = (s.arrived.take r.id).filter (inB c k) := by
-    apply split_unique r _ _ rest ((s.arrived.drop (r.id + 1)).filter (inB c k))
-    · rw [hi, hf2]
-    · exact not_mem_of_nodup_split r _ rest (by rw [hi]; exact hndf)
-    · exact not_mem_of_nodup_split r _ _ (by rw [← hf2]; exact hndf)
-  -- restricting to the requests that touch x
-  have hq : ∀ r' ∈ s.arrived, touches x r' = true → inB c k r' = true := by
-    intro r' hr' ht'
-    have := bank_of_touch c r' x (hfit r' hr') ht'
-    simp [inB, this, hk]
-  have e1 : s.log.filter (touches x) = (s.log.filter (inB c k)).filter (touches x) := by
-    rw [List.filter_filter]
-    apply List.filter_congr
-    intro r' hr'
-    by_cases ht' : touches x r' = true
-    · simp [ht', hq r' (log_sub_arrived c s h r' hr') ht']
-    · simp [ht']
-  have e2 : (s.arrived.take r.id).reverse.filter (touches x)
-      = (((s.arrived.take r.id).filter (inB c k)).reverse).filter (touches x) := by
-    rw [← List.filter_reverse, List.filter_filter]
-    apply List.filter_congr
-    intro r' hr'
-    have hr'' : r' ∈ s.arrived := List.mem_of_mem_take (List.mem_reverse.1 hr')
-    by_cases ht' : touches x r' = true
-    · simp [ht', hq r' hr'' ht']
-    · simp [ht']
-  rw [← readByte_filter x s.log, ← readByte_filter x (s.arrived.take r.id).reverse, e1, e2, ← hpre]
-  simp
+    rw [← bank_of_touch c hc r x (hfit r hra) ht]; simpa [inB] using hrq
+  apply head_sees_flat_routed c s h k r rest hh x
+  intro r' hr' ht'
+  rw [bank_of_touch c hc r' x (hfit r' hr') ht', hk]
 
 /-! arrivals are only added by `deliver` -/
 
@@ -155,8 +249,11 @@ theorem tick_arrived (c : Cfg) (s : State) : (tick c s).arrived = s.arrived := b
   simp only
   split
   · exact finalizeFrom_arrived c _ s
-  · show (finalize c s).1.arrived = s.arrived
-    exact finalizeFrom_arrived c _ s
+  · split
+    · show (finalize c s).1.arrived = s.arrived
+      exact finalizeFrom_arrived c _ s
+    · show (finalize c s).1.arrived = s.arrived
+      exact finalizeFrom_arrived c _ s
 
 /-- every delivered request lies inside one interleave block -/
 def opFits (c : Cfg) : Op → Prop
